@@ -139,7 +139,78 @@ func (fr *Frame) callStatic(instr ssa.Instruction, callee *ssa.Function, bind []
 		defer func() { c.inlineStack = c.inlineStack[:len(c.inlineStack)-1] }()
 		return fr.inline(instr, callee, bind, args, st, reach, rt)
 	}
+	if callee.Pkg != nil && !strings.HasPrefix(callee.Pkg.Pkg.Path(), "github.com/ory/fosite") {
+		if ci, ok := instr.(ssa.CallInstruction); ok && !ci.Common().IsInvoke() {
+			free := true
+			for _, a := range ci.Common().Args {
+				if !refFree(a, 0) {
+					free = false
+					break
+				}
+			}
+			if free {
+				// a library function without a spec that receives only numbers, strings and literals (log.Printf("...", s))
+				// cannot reach any object of this program: nothing is havocked, the result is unknown
+				c.notes = append(c.notes, fmt.Sprintf("%s: call to %s has no contract; its arguments carry no reference, state kept", fr.posShort(instr.Pos()), full))
+				c.tick(st, reach)
+				v := c.freshVal("res_"+shortName(full), rt)
+				for _, l := range leavesOf(rt) {
+					if lv := v.at(l.path); lv.T != nil && lv.T.Sort == SV {
+						c.assumeExisting(st, lv.T, reach)
+					}
+				}
+				return v
+			}
+		}
+	}
 	return fr.havocCall(instr, full, rt, st, reach)
+}
+
+// refFree: the SSA value cannot carry a reference to a heap object of the program: constants, numbers, strings, booleans,
+// such values boxed into an interface, and the argument slice of a variadic call whose elements are all of that kind.
+func refFree(v ssa.Value, depth int) bool {
+	if depth > 3 {
+		return false
+	}
+	basic := func(t types.Type) bool {
+		b, ok := t.Underlying().(*types.Basic)
+		return ok && b.Kind() != types.UnsafePointer
+	}
+	switch x := v.(type) {
+	case *ssa.Const:
+		return true
+	case *ssa.MakeInterface:
+		return basic(x.X.Type()) && refFree(x.X, depth+1)
+	case *ssa.Slice:
+		al, ok := x.X.(*ssa.Alloc)
+		if !ok {
+			return false
+		}
+		refs := al.Referrers()
+		if refs == nil {
+			return false
+		}
+		for _, r := range *refs {
+			switch u := r.(type) {
+			case *ssa.IndexAddr:
+				ur := u.Referrers()
+				if ur == nil {
+					return false
+				}
+				for _, w := range *ur {
+					st, ok := w.(*ssa.Store)
+					if !ok || !refFree(st.Val, depth+1) {
+						return false
+					}
+				}
+			case *ssa.Slice:
+			default:
+				return false
+			}
+		}
+		return true
+	}
+	return basic(v.Type())
 }
 
 // inlinableHelper: a named function of the repository without contract that is small, loop-free, not recursive and
